@@ -88,6 +88,12 @@ pub fn turns(rt: &Runtime, n: usize, wait: Duration) {
     })
 }
 
+/// Only the driver half of a loop turn: completions are recorded and wakers fire, but no task runs.
+/// What follows happens in the window "completed in the driver, not yet seen by its future".
+pub fn poll_only(rt: &Runtime, wait: Duration) {
+    rt.enter(|| rt.poll_with(Some(wait)))
+}
+
 pub fn poll_once<F: Future + ?Sized>(f: Pin<&mut F>) -> Poll<F::Output> {
     let mut cx = Context::from_waker(Waker::noop());
     f.poll(&mut cx)
@@ -112,6 +118,18 @@ pub fn join_now<T>(h: &mut JoinHandle<T>) -> Option<Result<T, String>> {
             Some(Err(format!("task panicked: {msg}")))
         }
         Poll::Pending => None,
+    }
+}
+
+/// Raise the soft descriptor limit to the hard limit: on a heavily loaded machine descriptors of
+/// finished cases are released with a delay by worker threads, long runs must not hit EMFILE.
+pub fn raise_nofile() {
+    unsafe {
+        let mut r: libc::rlimit = std::mem::zeroed();
+        if libc::getrlimit(libc::RLIMIT_NOFILE, &mut r) == 0 && r.rlim_cur < r.rlim_max {
+            r.rlim_cur = r.rlim_max.min(65536);
+            libc::setrlimit(libc::RLIMIT_NOFILE, &r);
+        }
     }
 }
 
